@@ -59,3 +59,4 @@ while True:
 """, pool=[1.0, 2.0, 3.0, 5.0, 8.0, 13.0])
 raw("D2-invert", "C09", {"kind": "program", "src": {"": HDR + "x = d0.Setting\ndb.Setting = ~x\n"}, "opts": {}})
 raw("D18-bdns", "C16", {"family": "intrinsic", "name": "bdns"})
+raw("D26-library-constexpr", "C12", {'funcs': ['def cx0(a, b, c):\n    x = a\n    y = a * 2 + 1\n    x = (x << 2) | 0\n    return x', 'def cx1(a, b, c):\n    x = a\n    y = a * 2 + 1\n    x = (x << 1) | 0\n    x = x + len(c) + (HASH(c) & 1023)\n    x = (x << 1) | 0\n    x = (x << 1) | 0\n    return x', 'def cx2(a, b):\n    x = a\n    y = a * 2 + 1\n    y = y + cx0(a=0, b=0, c=0)\n    n = 0\n    while x > 10 and n < 20:\n        x = x >> 1\n        n += 1\n    y += n\n    return x'], 'infos': [{'name': 'cx0', 'params': ['a', 'b', 'c'], 'kinds': ['int', 'int', 'int'], 'defaults': {}, 'shape': {'branch': False, 'loop': False}, 'call_int': 'cx0(a=0, b=0, c=0)'}, {'name': 'cx1', 'params': ['a', 'b', 'c'], 'kinds': ['int', 'int', 'str'], 'defaults': {}, 'shape': {'branch': False, 'loop': False}, 'call_int': "cx1(a=0, b=0, c='x y')"}, {'name': 'cx2', 'params': ['a', 'b'], 'kinds': ['int', 'num'], 'defaults': {}, 'shape': {'branch': False, 'loop': True}, 'call_int': 'cx2(a=0, b=0.5)'}], 'calls': [{'text': 'cl.cx2(a=0, b=0.5)', 'func': 'cx2', 'nondefault': True, 'pos': 0}], 'in_lib': True, 'opts': {}})
